@@ -670,6 +670,11 @@ pub fn c12(cx: &mut Ctx) {
         if cx.rng.gen_bool(0.3) {
             let cutoff = cx.rng.gen_range(1..s.len());
             s.truncate(cutoff);
+        } else if cx.rng.gen_bool(0.3) {
+            // or end with a malformed request: requests completed earlier in the SAME read keep their descriptors
+            let r = gram::valid(&mut cx.rng, &o);
+            let cs = gram::corruptions(&r);
+            s.extend(&cs[cx.rng.gen_range(0..cs.len())].1);
         }
         let kc = cx.rng.gen_range(0..6);
         let cuts = gram::random_cuts(&mut cx.rng, s.len(), kc);
